@@ -38,6 +38,31 @@ theorem C07_input_gap_mirrored (alg : Alg) (A : Matrix (Fin m) (Fin n) K) (P : M
 
 end
 
+/-- **the least-squares solution of the mirrored system IS the mirrored solution** (uniqueness half of the statistics
+    of the mirrored system; every ordered field).  `P` positive definite, `S` resolving the defect of `A` (both follow
+    from `InputGap` and `Σ Pc = 1` at `LocalNetwork`: `RankGap.resolves`, `C01_net_prepare`).  Then WHATEVER satisfies
+    the specification `IsLSSolution` on the system of the mirrored description — in particular the answer of any of the
+    four solver models on it — is `(D_t x, D_s v, Φ)` for the solution `(x, v, Φ)` of the original system: coordinates
+    with `y` and orientation corrections negated, residuals of the negated observation classes negated, the SAME
+    `[pvv]`; and by `C07_input_gap_mirrored` the solvers' hypothesis on the mirrored system is the one on the original.
+    (NOT done: the instantiation at the two `netSolve` answers on the outputs of `project_equations()` —
+    `C07_mirror_solution_of_project_equations` — which needs `(toProblem np').A = D_s (toProblem np).A D_t` in matrix form
+    across `np' = { np with rows, rhs, clusters }` and C01's `_gap` façade at the carrier `trigOfField realTrig`.) -/
+theorem C07_mirror_solution_unique {K : Type} [Field K] [LinearOrder K] [IsStrictOrderedRing K] {m n : ℕ}
+    (A : Matrix (Fin m) (Fin n) K) (b : Fin m → K) (P : Matrix (Fin m) (Fin m) K)
+    (S : Finset (Fin n)) (s : Fin m → K) (t : Fin n → K) (hs : ∀ i, s i * s i = 1) (ht : ∀ j, t j * t j = 1)
+    (hpd : ∀ d, d ≠ 0 → 0 < d ⬝ᵥ P *ᵥ d) (hS : Resolves A S)
+    (x x' : Fin n → K) (v v' : Fin m → K) (rtr rtr' : K)
+    (h : IsLSSolution A b P S x v rtr)
+    (h' : IsLSSolution (diagonal s * A * diagonal t) (diagonal s *ᵥ b) (diagonal s * P * diagonal s) S x' v' rtr') :
+    x' = diagonal t *ᵥ x ∧ v' = diagonal s *ᵥ v ∧ rtr' = rtr :=
+  C07Gap.mirror_solution_unique A b P S s t hs ht hpd hS x x' v v' rtr rtr' h h'
+
+/-- `hpd`, `hS` together: unit weights and the identity design matrix with the empty subset -/
+example : (∀ d : Fin 1 → ℚ, d ≠ 0 → 0 < d ⬝ᵥ (1 : Matrix (Fin 1) (Fin 1) ℚ) *ᵥ d) ∧
+    Resolves (1 : Matrix (Fin 1) (Fin 1) ℚ) (∅ : Finset (Fin 1)) :=
+  ⟨fun d hd => by rw [one_mulVec]; exact Ls.dot_self_pos hd, fun g hg _ => by rwa [one_mulVec] at hg⟩
+
 /-- the sign hypotheses are those of `C07_mirror_signs`: `kSgn`, `colSgn ∈ {1, −1}`; e.g. a 2-row, 2-column pattern -/
 example : (∀ i : Fin 2, (![1, -1] : Fin 2 → ℚ) i * ![1, -1] i = 1) ∧
     (∀ j : Fin 2, (![-1, 1] : Fin 2 → ℚ) j * ![-1, 1] j = 1) := by
